@@ -79,11 +79,12 @@ Hazards(e) ==
     [] e.k = "fn"  -> Hazards(e.e) \cup (CASE e.f \in {"absent", "absentot"} -> {"absent"} [] e.f = "neg" -> {"neg"}
                                            [] e.f = "abs" -> {"abs"} [] OTHER -> {})
     [] e.k = "agg" -> Hazards(e.e) \cup (IF e.op \in {"count", "cv"} THEN {"count"} ELSE {})
+                                   \cup (IF e.op = "group" THEN {"group"} ELSE {})
     [] e.k = "bin" -> Hazards(e.l) \cup Hazards(e.r) \cup (IF IsCmp(e.op) /\ e.bool THEN {"boolcmp"} ELSE {})
                                      \cup (IF e.op \in {"and", "unless"} THEN {"filter"} ELSE {})
                                      \* <scalar> cmp <vector> keeps the vector's sample value, the folding takes the scalar
                                      \cup (IF IsCmp(e.op) /\ ~e.bool /\ Ty(e.l) = "s" /\ Ty(e.r) = "v" THEN {"scalarcmp"} ELSE {})
-HazardOrder == <<"abs", "absent", "boolcmp", "count", "filter", "neg", "scalarcmp">>
+HazardOrder == <<"abs", "absent", "boolcmp", "count", "filter", "group", "neg", "scalarcmp">>
 RECURSIVE JoinFrom(_, _)
 JoinFrom(S, i) == IF i > Len(HazardOrder) THEN ""
                   ELSE (IF HazardOrder[i] \in S THEN HazardOrder[i] \o "," ELSE "") \o JoinFrom(S, i + 1)
